@@ -46,12 +46,21 @@ type initObs struct {
 	Adds    []addTry  `json:"adds"`
 }
 
+// initRun is written as the tuple [targets, order, keys, err_at, err(0/1)] (TLC parses JSON slowly: keep it short).
 type initRun struct {
 	Targets []int    `json:"targets"`
 	Order   []int    `json:"order"`
 	Keys    []int    `json:"keys"`
 	ErrAt   int      `json:"err_at"`
 	Err     bool     `json:"err"`
+}
+
+func (r initRun) MarshalJSON() ([]byte, error) {
+	e := 0
+	if r.Err {
+		e = 1
+	}
+	return json.Marshal([]any{r.Targets, r.Order, r.Keys, r.ErrAt, e})
 }
 
 type addTry struct {
@@ -326,16 +335,21 @@ func TestGraph(t *testing.T) {
 					}
 				}
 			}
-			if (idx-1)%initEvery != 0 {
+			if (int64(idx)+seed)%int64(initEvery) != 0 {
 				continue
 			}
 			// InitModuleServices for every target subset, targets in a seeded order
 			io := initObs{K: "mgr", Case: idx, N: c.N, Edges: c.Edges, HasInit: b.hasInit, HasSvc: b.hasSvc, Runs: []initRun{}, Deps: [][]int{}, Adds: []addTry{}}
-			for _, T := range subsetsOf(c.N) {
+			subsets := subsetsOf(c.N)
+			if rep > 0 { // all subsets in the first repetition, a seeded third of them afterwards
+				rng.Shuffle(len(subsets), func(i, j int) { subsets[i], subsets[j] = subsets[j], subsets[i] })
+				subsets = subsets[:(len(subsets)+2)/3]
+			}
+			for _, T := range subsets {
 				targets := append([]int{}, T...)
 				rng.Shuffle(len(targets), func(i, j int) { targets[i], targets[j] = targets[j], targets[i] })
 				errAt := 0
-				if rep == 2 && rng.Intn(4) == 0 {
+				if rep == 2 && rng.Intn(3) == 0 {
 					errAt = 1 + rng.Intn(c.N)
 				}
 				o, perr := runInit(b, targets, errAt)
